@@ -230,6 +230,54 @@ func TestJudgeSelfTest(t *testing.T) {
 	}
 	expect("at the cap", l, false, &policy{endless: true})
 
+	// the ssh-rsa-cert-v01 retry after a refused SHA-2 certificate offer
+	rc := buildSigner(poolBy["rsa1"], kindDefault, nil, true, false)
+	cspec := &clientSpec{user: "bob", methods: []*methodSpec{{name: "publickey", signers: []*signerSpec{rc}}, {name: "password"}}}
+	l = newLogB()
+	l.none()
+	l.failure(false, "publickey", "password")
+	l.query("rsa-sha2-512-cert-v01@openssh.com", rc.blob)
+	l.failure(false, "publickey", "password")
+	l.password()
+	l.failure(false, "publickey", "password")
+	fs, _ := judge(cspec, nil, l.d)
+	if !strings.Contains(keysOf(fs), "rsa-cert-sha1-compat-retry-missing") {
+		t.Errorf("missing compat retry not reported: %s", keysOf(fs))
+	}
+	l = newLogB()
+	l.none()
+	l.failure(false, "publickey", "password")
+	l.query("rsa-sha2-512-cert-v01@openssh.com", rc.blob)
+	l.failure(false, "publickey", "password")
+	l.query("ssh-rsa-cert-v01@openssh.com", rc.blob)
+	l.failure(false, "publickey", "password")
+	l.password()
+	l.failure(false, "publickey", "password")
+	if fs, st := judge(cspec, nil, l.d); len(fs) != 0 || st["rsa_cert_sha1_compat_offer"] != 1 {
+		t.Errorf("compat retry: %s %v", keysOf(fs), st)
+	}
+	l = newLogB()
+	l.none()
+	l.failure(false, "publickey", "password")
+	l.query("ssh-rsa-cert-v01@openssh.com", rc.blob) // without a refused SHA-2 offer this is not the documented choice
+	l.failure(false, "publickey", "password")
+	if fs, _ := judge(cspec, nil, l.d); !strings.Contains(keysOf(fs), "pubkey-algorithm:overlap-ordered") {
+		t.Errorf("premature ssh-rsa-cert offer: %s", keysOf(fs))
+	}
+
+	// a method taken from the list that preceded a RetryableAuthMethod gets its own key
+	sspec := &clientSpec{user: "bob", methods: []*methodSpec{{name: "password", wrapped: true, maxTries: 2}, {name: "keyboard-interactive"}}}
+	l = newLogB()
+	l.none()
+	l.failure(false, "password", "keyboard-interactive")
+	l.password()
+	l.failure(false, "password")
+	l.req("keyboard-interactive", cauth.PutS(cauth.PutS(nil, ""), ""))
+	l.failure(false, "password")
+	if fs, _ := judge(sspec, nil, l.d); keysOf(fs) != "method-from-stale-list:after-retryable-method" {
+		t.Errorf("stale list: %s", keysOf(fs))
+	}
+
 	// RetryableAuthMethod: the re-run of an unlisted method is accepted only within maxTries
 	rspec := &clientSpec{user: "bob", methods: []*methodSpec{{name: "password", wrapped: true, maxTries: 2}}}
 	l = newLogB()
